@@ -197,7 +197,7 @@ func (w *world) attData(i int, inv string, k int) *phase0.AttestationData {
 	d := &phase0.AttestationData{
 		Slot:            phase0.Slot(c.slot(k)),
 		Index:           committeeIndex,
-		BeaconBlockRoot: headRoot(i),
+		BeaconBlockRoot: headRoot(headOf(c, i)),
 		Source:          &phase0.Checkpoint{Epoch: phase0.Epoch(source), Root: tagRoot(0x55, 0x01)},
 		Target:          &phase0.Checkpoint{Epoch: phase0.Epoch(epoch), Root: tagRoot(byte(i+1), 0x02)},
 	}
